@@ -51,6 +51,10 @@
     order up to the tree order. The strict runner `runUS` stops at the first failing `put`; no
     finished thread reports one (`Proofs/ConcPutOk.lean`).
 
+  * `conc_public_api_no_panic_with_tree_changes` — the same panic freedom when `change_tree`
+    calls (class changes and `Offline`, by id or by search) run among the other calls
+    (`Proofs/ConcChange.lean`). `Online` cannot be added: K2.
+
   * `k2_online_race_panics` — **a second refutation** (known finding K2): a free into an offline
     tree that races with `change_tree(Online)` panics in the counter assertion of `Tree::put`
     (the frames of the free are counted once by the Online fetch and once by the free itself);
@@ -70,6 +74,7 @@ import LLFreeV.Proofs.OwnLowerThreads
 import LLFreeV.Proofs.OwnUpperThreads
 import LLFreeV.Proofs.ConcUpperThreads
 import LLFreeV.Proofs.ConcPutOk
+import LLFreeV.Proofs.ConcChange
 namespace LLFree.C03
 open LLFree
 
@@ -210,6 +215,15 @@ theorem conc_public_put_of_held_succeeds (c : Cfg) (ok : CfgOk c) (H : Nat → N
     | .dead s => s = oobMsg
     | .step _ _ _ => True :=
   upper_conc_put_succeeds ok H m inv n cmds hvalid sched hsched k hk
+
+/-- **No call panics when trees are changed concurrently** (class changes, `Offline`; `Online` is
+    refuted by K2). -/
+theorem conc_public_api_no_panic_with_tree_changes (c : Cfg) (ok : CfgOk c) (H : Nat → Nat) (m : Mem) (inv : UpperInv0 c H m)
+    (n : Nat) (cmds : Nat → List CCmd) (hvalid : ∀ k, ∀ x ∈ cmds k, x.valid c) (sched : List Nat) (hsched : ∀ k ∈ sched, k < n)
+    (k : Nat) (hk : k < n) (s : String)
+    (hd : ((concRun sched (m, fun k => Th.at (runUC c (cmds k) ⟨[], []⟩))).2 k).step
+      (concRun sched (m, fun k => Th.at (runUC c (cmds k) ⟨[], []⟩))).1 = .dead s) : s = oobMsg :=
+  upper_conc_no_panic_change ok H m inv n cmds hvalid sched hsched k hk s hd
 
 /-- the flag is not vacuous: a `put` that returns an error ends the strict runner with the flag set -/
 theorem put_failure_is_reported (c : Cfg) (b : Blk) (cls : Nat) (loc : Option Nat) (rest : List UCmd) (e : Err) (m m' : Mem)
